@@ -30,8 +30,9 @@ def sig_programs(chk, n):
         if rng.random() < .7:
             ops += ['e'] * depth
         h = rng.choice('ddi')
-        lines.append('sig h=%s ops=%s' % (h, ','.join(ops) or '-'))
-        impl.append(small.sig_run(h, ops))
+        done, obsline = small.sig_run(h, ops)
+        lines.append('sig h=%s ops=%s' % (h, ','.join(done) or '-'))
+        impl.append(obsline)
     for line, i, m in zip(lines, impl, drv.run(lines)):
         chk.count('DelayedKeyboardInterrupt/DisableKeyboardInterruptSignal vs Mpire.Signal', key=line, nontrivial=line.count('s,') + line.count('D') >= 2,
                   sample={'line': line, 'impl': i}, initial=line.split(' ')[1], balanced='depth=0' in i)
